@@ -2,6 +2,7 @@
 Model: coq/theories/Model/Describe.v (over Model/Matcher.v) ; theorems: Props/C17.v ; wording: gen/TablesMatchers.v."""
 import itertools
 import json
+import os
 
 import gen_matchers as G
 import impl_matchers as I
@@ -183,6 +184,40 @@ def first_difference(e1, e2, dom):
     return None
 
 
+# ----------------------------------------------------------------------------- semantic neighbours of an expression
+SWAPS = [G.VALUE_LEAVES, G.STRING_LEAVES, G.LIST_LEAVES, G.TYPES, ["has_item", "has_all_items"], ["is_none", "is_not_none"],
+         ["is_true", "is_false"], ["all_of", "any_of"]]
+
+
+def root_variants(e):
+    """Expressions that differ from e by one logical edit at the root: another connective, one more / one less negation,
+    a sibling constructor on the same arguments, a re-association of nested connectives."""
+    op = e[0]
+    for fam in SWAPS:
+        if op in fam:
+            for other in fam:
+                if other != op:
+                    yield (other,) + tuple(e[1:])
+    yield ("not_", e)
+    if op == "not_" and not G.is_value_arg(e[1]):
+        yield e[1]
+    if op in ("all_of", "any_of") and len(e[1]) >= 2 and not G.is_value_arg(e[1][0]) and e[1][0][0] in ("all_of", "any_of") \
+            and e[1][0][0] != op and len(e[1][0][1]) >= 2:
+        inner = e[1][0]
+        # rel1[rel2[a, b..], c..]  ->  rel2[a, rel1[b.., c..]]
+        yield (inner[0], [inner[1][0], (op, inner[1][1:] + e[1][1:])])
+
+
+def variants(e):
+    if G.is_value_arg(e):
+        return
+    yield from root_variants(e)
+    for i, sub in enumerate(G.sub_args(e)):
+        if not G.is_value_arg(sub):
+            for v in variants(sub):
+                yield G._replace_arg(e, i, v)
+
+
 # witnesses of the recorded findings (same as the Coq `..._refuted` theorems), replayed on every run
 GT0, LT10 = ("greater_than", 0), ("less_than", 10)
 WITNESSES = {
@@ -289,6 +324,12 @@ def check(run):
             transformer_oracles(run, e, False, False, (s, c2, n2))
             dcases.append((e, False, False, s, c2, n2))
         groups.setdefault(s, {}).setdefault(accepted(e, dom), []).append(e)
+        # its semantic neighbours: if one accepts other values it must be described differently
+        vs = list(variants(e))
+        for v in (vs if len(vs) <= 8 else run.rng.sample(vs, 8)):
+            run.count("fragment_neighbours")
+            run.evaluations += 1
+            groups.setdefault(describe_full(v, False, False)[0], {}).setdefault(accepted(v, dom), []).append(v)
     run.count("distinct_descriptions", len(groups))
     for s, tables in groups.items():
         if sum(len(x) for x in tables.values()) > 1:
@@ -353,7 +394,7 @@ def check(run):
         "settings, description string and transformer state afterwards compared with Model.Describe inside Coq; sentences "
         "recorded by real check_that calls; oracles on every expression: transformer unchanged after build_description, "
         "operands of a composite described as alone (probe matchers), not_(not_ m) worded as m, not_ m worded as m under the "
-        "flipped transformer; faithfulness: expressions of the property's fragment grouped by description, accepted sets over a "
+        "flipped transformer; faithfulness: expressions of the property's fragment and up to 8 semantic neighbours of each (one connective swapped, one negation added or removed, a sibling constructor, a re-association) grouped by description, accepted sets over a "
         "29-value separating domain compared within a group, every collision must be explained by a recorded cause; "
         "non-trivial = a description shared by expressions with different accepted sets (explained collision), or a composite "
         "with a negated operand whose siblings were probed")
@@ -427,5 +468,10 @@ def replay(path):
         o = I.run_operations([("check_that", e, None, True, rp["hint"])])[0]
         print(json.dumps(o, default=str))
         return 1 if not o["checks"] or o["checks"][0][0] != rp["expected"] else 0
+    if r.get("kind") == "no-failing-input-found":
+        # a broken proof / translator / correspondence without a failing input: re-run the whole check on the current tree
+        import subprocess
+        rc = subprocess.call([os.path.join(lib.ROOT, "check"), "C17", "--tier", "quick"])
+        return 1 if rc else 0
     print("nothing to replay in", path)
     return 2
